@@ -7,6 +7,7 @@
 package verifpoint
 
 import (
+	"sync"
 	"sync/atomic"
 	"unsafe"
 )
@@ -32,9 +33,17 @@ func Point(name string, a, b, c int64) {
 	}
 }
 
+// pinned keeps every object whose identity was reported alive, so that an address is never
+// reused for another object while a monitor still remembers it.
+var pinned sync.Map
+
 // Ptr returns the identity of a pointer-typed value.
 func Ptr(p any) int64 {
-	return int64((*[2]uintptr)(unsafe.Pointer(&p))[1])
+	addr := int64((*[2]uintptr)(unsafe.Pointer(&p))[1])
+	if _, ok := pinned.Load(addr); !ok {
+		pinned.Store(addr, p)
+	}
+	return addr
 }
 
 // B converts a bool.
